@@ -16,9 +16,18 @@ EXPLANATION = (
     "1, 7, 8, 9, 15, 16, 17, 24 between literal stretches, widths 1, 2, 3, 8): the bytes appended, read by the specification's decoder, "
     "are the sequence. (4) BYTE_STREAM_SPLIT: stream byte k*count + i is byte k of value i, both directions, widths 1..16, decided by "
     "provenance of opaque bytes. (6) DELTA_BINARY_PACKED streams written from the specification with constant deltas (all used mini-block widths 0, so the values are determined by the headers): values first + k * min_delta, exactly the header bytes consumed, width bytes of the mini-blocks the last block does not use ignored whatever they hold; the streaming decoder (get / get_batch in pieces) returns multi-group streams in stream order for every cutting of the requests. (5) The run headers and DELTA headers are LEB128 on both sides for every value on either side of a "
-    "7-bit boundary (R38). Decides these clauses; it does not decide DELTA_BINARY_PACKED / DELTA_LENGTH / DELTA_BYTE_ARRAY block "
-    "contents (min-delta arithmetic, mini-block widths, wide-delta byte layout), PLAIN value layouts beyond the extents of C11.2, nor "
-    "the hybrid forms outside the grid.")
+    "7-bit boundary (R38). (7) DELTA_BINARY_PACKED contents on concrete sequences chosen per mini-block width class (0, 1, odd widths, "
+    "8, 17, 24, 31, 32 and for INT64 33, 40, 47, 58, 63, 64; narrow and wide mini-blocks in one block; partly filled blocks; negative min deltas; "
+    "differences that wrap around the type): the encoders' bytes are read by a decoder written from the specification (every width bit-packed "
+    "LSB-first, mini_block_size * width / 8 bytes, no mini-block wider than the type, exactly the reported length), and the decoders are run on "
+    "streams from an encoder written from the specification, also with wider-than-needed widths and junk in unused width bytes. "
+    "(8) DELTA_LENGTH_BYTE_ARRAY and DELTA_BYTE_ARRAY framing with the inner DELTA coder hooked: the decoders' value i is, byte by byte (provenance of opaque "
+    "input bytes), what the specification names - the lengths[i] bytes after the lengths block(s) at the sum of the earlier lengths, preceded for DELTA_BYTE_ARRAY by "
+    "the first prefix[i] bytes of value i-1 - and everything is reported consumed; the encoders hand the lengths (prefix, then suffix) to the DELTA encoder and append "
+    "the block(s) and then the (suffix) bytes in order, judged by reading the result back as the specification does (any prefix length up to the common prefix is accepted). "
+    "(9) PLAIN on concrete values with pairwise different bytes: every encoder's appended bytes (through the real carquet_buffer code) and every decoder's values "
+    "and returned byte count, directly and through the carquet_decode_plain type switch, against the specification's layout (booleans with set padding bits). "
+    "Decides these clauses on these grids; it does not decide stream forms outside the grids (block geometries other than 128 / 4, 64 / 2 and 32 / 1 - larger ones carquet refuses with an error).")
 
 BP = "src/core/bitpack.c"
 RL = "src/encoding/rle.c"
@@ -41,6 +50,22 @@ def run(ctx):
     ctx.clause("C12.6 DELTA_BINARY_PACKED headers: streams with constant deltas decode to first + k * min_delta, consume exactly their header bytes, and the width bytes of unused mini-blocks are ignored")
     ndh = encspec.check_delta_headers(ctx)
     ctx.floor("C12 constant-delta streams", ndh, 200)
+    ctx.clause("C12.7 DELTA_BINARY_PACKED contents: what the encoders write is read back by the specification's decoder, and the decoders return the values of "
+               "specification-written streams, for every mini-block width class of the type (bit-packed at every width, differences wrapping in the type's width)")
+    nde = encspec.check_delta_encoder(ctx)
+    ndd = encspec.check_delta_decoder(ctx)
+    ctx.floor("C12 sequences through the DELTA encoders", nde, 60)
+    ctx.floor("C12 specification streams through the DELTA decoders", ndd, 150)
+    ctx.clause("C12.8 DELTA_LENGTH_BYTE_ARRAY and DELTA_BYTE_ARRAY framing: lengths block(s) first, then the bytes back to back; value i of DELTA_BYTE_ARRAY is "
+               "the first prefix[i] bytes of value i-1 followed by suffix i (inner DELTA coder hooked, bytes by provenance)")
+    ndl = encspec.check_delta_length(ctx)
+    nds = encspec.check_delta_strings(ctx)
+    ctx.floor("C12 DELTA_LENGTH_BYTE_ARRAY cases", ndl, 20)
+    ctx.floor("C12 DELTA_BYTE_ARRAY cases", nds, 15)
+    ctx.clause("C12.9 PLAIN: little-endian fixed-width values back to back, booleans one bit each LSB-first, BYTE_ARRAY as 4-byte length plus bytes, "
+               "FIXED_LEN_BYTE_ARRAY as the bytes alone - encoders through the real buffer code, decoders directly and through carquet_decode_plain")
+    npl = encspec.check_plain(ctx)
+    ctx.floor("C12 PLAIN cases", npl, 60)
     ctx.clause("C12.3 what the hybrid encoder appends is read back by the specification's decoder as the sequence it was given (equality patterns of run detection)")
     ne = encspec.check_hybrid_encoder(ctx)
     ctx.floor("C12 sequences through the hybrid encoder", ne, 60)
